@@ -6,6 +6,8 @@ ALL = ["C%02d" % i for i in range(1, 21)]
 BASE_OFF = "cd /repo && env -u ASCMHL_VERIF /venv/bin/python -m pytest -ra -q -p no:cacheprovider --timeout=900 --continue-on-collection-errors"
 T = "in-process CliRunner on tmpfs as accelerator, every alarm re-run in one fresh subprocess per command; CPython, hashlib, xxhash, lxml/libxml2 trusted; bounds and alphabets as listed in the evidence file"
 CHECKS = {
+ "C05": ("E3", "fault_enumeration", "exhaustive enumeration of tamper faults (every manifest x edit kind x position) x every history-reading command on the real code",
+         "For flat and nested (2 and 3 level) histories every manifest listed in any chain is flipped / grown / shrunk / truncated at enumerated positions (thorough: a bit flip at every byte), gets a newline appended or is removed, and every chain file is removed; each of 12 history-reading commands must answer with exactly 31 / 33 / 32 and leave a byte- and metadata-identical tree.", "4 C05"),
  "C16": ("E2", "exploration", "exhaustive enumeration of the finite product zone x now x mtime x size on the real code under a TZ + virtual-clock seam",
          "For 13 zones (thorough: every zone of the system tz database with a transition in the test year) the current time and the file time each range over mid-winter, mid-summer and one second before/after every transition; every combination is sealed with the real create and each recorded size, date (ISO-8601 grammar, true instant, offset in force at that instant per zoneinfo) and the UTC file-name time is checked.", "4 C16"),
  "C10": ("E2", "exploration", "bounded-exhaustive enumeration of model objects (all deviations from a default object in <=2-3 fields) and of all legal code points, on the real writer/reader pair",
